@@ -2,7 +2,7 @@
 
 import ast
 
-from .. import dtypes, roles
+from .. import blocks, dtypes, roles
 from ..core import AnalysisError
 from ..src import arg_names, calls_in, unparse
 from . import c14
